@@ -677,4 +677,34 @@ def rawLearnersS (r : Result) (x : XSpec) (lc : List Col) (pc : Option (List Col
     | .error err => .error err
     | .ok fin => if fin.lrns.isEmpty then .error .coba else groupedYsS fin lc x span
 
+/-! ## chains of `where_fin` / `where` -/
+
+/-- a well-formed Result: sorted interaction table (`Result.__init__` indexes it), primary keys, per-evaluation
+index `1..len`, every referenced id present -/
+def WF (r : Result) : Prop := SortedIds r.ints ∧ UniqueIds r ∧ IdxWF r.ints ∧ RefsPresent r
+
+instance (r : Result) : Decidable (WF r) := by unfold WF; infer_instance
+
+inductive Step
+  | fin (n : Option NSpec) (lp : Option (List Col × List Col))
+  | wher (tb : Tbl) (j : Option Nat) (vals : List Int)
+
+/-- a chain `r.where_fin(…).where(…).where_fin(…)…` on the model -/
+def runChain (fixed : Bool) : List Step → Result → Except Err Result
+  | [], r => .ok r
+  | .fin n lp :: ss, r =>
+    match filterFin fixed r n lp with
+    | .ok r' => runChain fixed ss r'
+    | .error e => .error e
+  | .wher tb j vals :: ss, r => runChain fixed ss (whereTbl r tb j vals)
+
+/-- the same chain with every `where_fin` replaced by its specification -/
+def runChainS : List Step → Result → Except Err Result
+  | [], r => .ok r
+  | .fin n lp :: ss, r =>
+    match whereFinS r n lp with
+    | .ok r' => runChainS ss r'
+    | .error e => .error e
+  | .wher tb j vals :: ss, r => runChainS ss (whereTbl r tb j vals)
+
 end Coba.C18
